@@ -1,25 +1,31 @@
 // Correspondence / corpus driver for C18 (decoders of untrusted bytes fail closed).
 //
-//   c18 gen  <seed> <tier> <cases-out> <obs-out>   build the corpus, run /repo on it
-//   c18 run  <cases-in> <obs-out>                  run /repo on given cases (replay, corpus/)
+//	c18 gen  <seed> <tier> <cases-out> <obs-out>   build the corpus, run /repo on it
+//	c18 run  <cases-in> <obs-out>                  run /repo on given cases (replay, corpus/)
 //
 // Case lines ("<op> <id> <fields...>", bytes in hex, "-" = empty):
-//   modelled decoders (the extracted Coq model answers the same line):
-//     BER id b                         x509.ber2der                       -> ok <der> | err
-//     UNP id bl b / PAD id bl b        x509.unpad / x509.pad              -> ok <bytes> | err
-//     SDG id mode b                    sm2.Decrypt (fixed key)            -> ok | err       (model: err | pass)
-//     CUM id b asn1 [xneg yneg x y h c]   sm2.CipherUnmarshal; the fields are what encoding/asn1 decoded
-//                                                                         -> ok <bytes> | err
-//     CMA id b                         sm2.CipherMarshal                  -> ok x y h c | err
-//     DCP id b                         sm2.Decompress                     -> ok <x> | err   (model: err | pass <x>)
-//     P8E id der pw asn1 [pbes2 pbkdf2 aes iv enclen prf]   x509.ParsePKCS8EcryptedPrivateKey -> ok | err (model: err | pass)
-//     SKP id der asn1 [pk]             x509.ParseSm2PrivateKey            -> ok <D 32 bytes> | err
-//     HPU id text / HPR id text        x509.ReadPublicKeyFromHex / ReadPrivateKeyFromHex -> ok ... | err
-//     SSU id b                         gmtls sessionState.unmarshal       -> ok vers suite ms certs | err
-//     CRQ id b                         gmtls certificateRequestMsgGM.unmarshal -> ok types cas | err
-//     KXC id b aux / KXS id b aux.. / KXE id b aux..   GM key-exchange parsers -> ok | err (model: err | pass)
-//   corpus-only decoders (model prints SKIP):
-//     D id <decoder> b [aux...]                                           -> ok | err
+//
+//	modelled decoders (the extracted Coq model answers the same line):
+//	  BER id b                         x509.ber2der                       -> ok <der> | err
+//	  UNP id bl b / PAD id bl b        x509.unpad / x509.pad              -> ok <bytes> | err
+//	  SDG id mode b                    sm2.Decrypt (fixed key)            -> ok | err       (model: err | pass)
+//	  CUM id b asn1 [xneg yneg x y h c]   sm2.CipherUnmarshal; the fields are what encoding/asn1 decoded
+//	                                                                      -> ok <bytes> | err
+//	  CMA id b                         sm2.CipherMarshal                  -> ok x y h c | err
+//	  DCP id b                         sm2.Decompress                     -> ok <x> | err   (model: err | pass <x>)
+//	  P8E id der pw asn1 [pbes2 pbkdf2 aes iv enclen prf]   x509.ParsePKCS8EcryptedPrivateKey -> ok | err (model: err | pass)
+//	  SKP id der asn1 [pk]             x509.ParseSm2PrivateKey            -> ok <D 32 bytes> | err
+//	  HPU id text / HPR id text        x509.ReadPublicKeyFromHex / ReadPrivateKeyFromHex -> ok ... | err
+//	  SSU id b                         gmtls sessionState.unmarshal       -> ok vers suite ms certs | err
+//	  CRQ id b                         gmtls certificateRequestMsgGM.unmarshal -> ok types cas | err
+//	  KXC id b aux / KXS id b aux.. / KXE id b aux..   GM key-exchange parsers -> ok | err (model: err | pass)
+//	  A1S id b                          sm2.SignDataToSignDigit (encoding/asn1 into SEQUENCE{r,s})  -> ok r s | err
+//	  A1C id b                          sm2.CipherUnmarshal from the bytes (asn1 model + post-processing) -> ok <bytes> | err
+//	  A1X / A1T1 / A1T2 id b            encoding/asn1.Unmarshal itself into mirror structs of the outer certificate split and of
+//	                                    two structures with optional / explicit / implicit fields -> ok <rendered value> <rest> | err
+//	corpus-only decoders (model prints SKIP):
+//	  D id <decoder> b [aux...]                                           -> ok | err
+//
 // Handshake messages additionally get structure-aware mutants (tlstree.go).
 // Every call runs under recover() and a deadline; a call slower than 2 s (twice) is reported as
 // SLOW <ms>, one that allocates more than 64 MiB as ALLOC <MiB>, a panic as PANIC, no return within
@@ -148,7 +154,7 @@ var decoders = map[string]func(b []byte, aux []string) string{
 	},
 	"certs":   func(b []byte, _ []string) string { _, err := x509.ParseCertificates(b); return okErr(err) },
 	"certpem": func(b []byte, _ []string) string { _, err := x509.ReadCertificateFromPem(b); return okErr(err) },
-	"certx": func(b []byte, _ []string) string { _, err := x509.ParseSm2CertifateToX509(b); return okErr(err) },
+	"certx":   func(b []byte, _ []string) string { _, err := x509.ParseSm2CertifateToX509(b); return okErr(err) },
 	"csr": func(b []byte, _ []string) string {
 		r, err := x509.ParseCertificateRequest(b)
 		if err == nil {
@@ -187,19 +193,19 @@ var decoders = map[string]func(b []byte, aux []string) string{
 		_, err := x509.ReadPrivateKeyFromPem(b, []byte(password))
 		return okErr(err)
 	},
-	"pubpem":  func(b []byte, _ []string) string { _, err := x509.ReadPublicKeyFromPem(b); return okErr(err) },
-	"pubder":  func(b []byte, _ []string) string { _, err := x509.ParseSm2PublicKey(b); return okErr(err) },
-	"pkix":    func(b []byte, _ []string) string { _, err := x509.ParsePKIXPublicKey(b); return okErr(err) },
-	"sm2priv": func(b []byte, _ []string) string { _, err := x509.ParseSm2PrivateKey(b); return okErr(err) },
-	"hexpriv": func(b []byte, _ []string) string { _, err := x509.ReadPrivateKeyFromHex(string(b)); return okErr(err) },
-	"hexpub":  func(b []byte, _ []string) string { _, err := x509.ReadPublicKeyFromHex(string(b)); return okErr(err) },
-	"p12":     func(b []byte, _ []string) string { _, _, err := pkcs12.Decode(b, password); return okErr(err) },
-	"p12all":  func(b []byte, _ []string) string { _, _, err := pkcs12.DecodeAll(b, password); return okErr(err) },
-	"p12pem":  func(b []byte, _ []string) string { _, err := pkcs12.ToPEM(b, password); return okErr(err) },
-	"p12key":  func(b []byte, _ []string) string { _, err := pkcs12.ParsePKCS8PrivateKey(b); return okErr(err) },
-	"sm2dec0": func(b []byte, _ []string) string { _, err := sm2.Decrypt(keyA, b, sm2.C1C3C2); return okErr(err) },
-	"sm2dec1": func(b []byte, _ []string) string { _, err := sm2.Decrypt(keyA, b, sm2.C1C2C3); return okErr(err) },
-	"sm2decasn1": func(b []byte, _ []string) string { _, err := sm2.DecryptAsn1(keyA, b); return okErr(err) },
+	"pubpem":          func(b []byte, _ []string) string { _, err := x509.ReadPublicKeyFromPem(b); return okErr(err) },
+	"pubder":          func(b []byte, _ []string) string { _, err := x509.ParseSm2PublicKey(b); return okErr(err) },
+	"pkix":            func(b []byte, _ []string) string { _, err := x509.ParsePKIXPublicKey(b); return okErr(err) },
+	"sm2priv":         func(b []byte, _ []string) string { _, err := x509.ParseSm2PrivateKey(b); return okErr(err) },
+	"hexpriv":         func(b []byte, _ []string) string { _, err := x509.ReadPrivateKeyFromHex(string(b)); return okErr(err) },
+	"hexpub":          func(b []byte, _ []string) string { _, err := x509.ReadPublicKeyFromHex(string(b)); return okErr(err) },
+	"p12":             func(b []byte, _ []string) string { _, _, err := pkcs12.Decode(b, password); return okErr(err) },
+	"p12all":          func(b []byte, _ []string) string { _, _, err := pkcs12.DecodeAll(b, password); return okErr(err) },
+	"p12pem":          func(b []byte, _ []string) string { _, err := pkcs12.ToPEM(b, password); return okErr(err) },
+	"p12key":          func(b []byte, _ []string) string { _, err := pkcs12.ParsePKCS8PrivateKey(b); return okErr(err) },
+	"sm2dec0":         func(b []byte, _ []string) string { _, err := sm2.Decrypt(keyA, b, sm2.C1C3C2); return okErr(err) },
+	"sm2dec1":         func(b []byte, _ []string) string { _, err := sm2.Decrypt(keyA, b, sm2.C1C2C3); return okErr(err) },
+	"sm2decasn1":      func(b []byte, _ []string) string { _, err := sm2.DecryptAsn1(keyA, b); return okErr(err) },
 	"cipherunmarshal": func(b []byte, _ []string) string { _, err := sm2.CipherUnmarshal(b); return okErr(err) },
 	"ciphermarshal":   func(b []byte, _ []string) string { _, err := sm2.CipherMarshal(b); return okErr(err) },
 	"decompress": func(b []byte, _ []string) string {
@@ -241,9 +247,9 @@ var decoders = map[string]func(b []byte, aux []string) string{
 	},
 	"unpad8":  func(b []byte, _ []string) string { _, err := x509.VerifUnpad(b, 8); return okErr(err) },
 	"unpad16": func(b []byte, _ []string) string { _, err := x509.VerifUnpad(b, 16); return okErr(err) },
-	"kxc": func(b []byte, aux []string) string { return kxc(b, aux) },
-	"kxs": func(b []byte, aux []string) string { return kxs(b, aux) },
-	"kxe": func(b []byte, aux []string) string { return kxe(b, aux) },
+	"kxc":     func(b []byte, aux []string) string { return kxc(b, aux) },
+	"kxs":     func(b []byte, aux []string) string { return kxs(b, aux) },
+	"kxe":     func(b []byte, aux []string) string { return kxe(b, aux) },
 }
 
 func kxc(b []byte, aux []string) string {
@@ -260,8 +266,110 @@ func kxe(b []byte, aux []string) string {
 	return okErr(err)
 }
 
+// mirror structs for the comparison of the encoding/asn1 model with the real package
+type a1AlgID struct {
+	Algorithm  asn1.ObjectIdentifier
+	Parameters asn1.RawValue `asn1:"optional"`
+}
+type a1Cert struct {
+	Raw asn1.RawContent
+	TBS asn1.RawValue
+	Alg a1AlgID
+	Sig asn1.BitString
+}
+type a1T1 struct {
+	A *big.Int      `asn1:"explicit,tag:0,optional"`
+	B []byte        `asn1:"tag:1,optional"`
+	C asn1.RawValue `asn1:"optional"`
+	D asn1.ObjectIdentifier
+}
+type a1T2 struct {
+	V *big.Int
+	K []byte
+	O asn1.ObjectIdentifier `asn1:"optional,explicit,tag:0"`
+	P asn1.BitString        `asn1:"optional,explicit,tag:1"`
+}
+
+func rInt(x *big.Int) string {
+	if x == nil {
+		return "~"
+	}
+	if x.Sign() == 0 {
+		return "0"
+	}
+	if x.Sign() < 0 {
+		return "m" + hx.Hex(new(big.Int).Neg(x).Bytes())
+	}
+	return hx.Hex(x.Bytes())
+}
+func rBytes(b []byte) string {
+	if b == nil {
+		return "~"
+	}
+	return hx.Hex(b)
+}
+func rOID(o asn1.ObjectIdentifier) string {
+	if o == nil {
+		return "~"
+	}
+	p := make([]string, len(o))
+	for i, x := range o {
+		p[i] = strconv.Itoa(x)
+	}
+	return strings.Join(p, ".")
+}
+func rRaw(r asn1.RawValue) string {
+	if len(r.FullBytes) == 0 {
+		return "~"
+	}
+	c := 0
+	if r.IsCompound {
+		c = 1
+	}
+	return fmt.Sprintf("%d.%d.%d.%s.%s", r.Class, r.Tag, c, hx.Hex(r.Bytes), hx.Hex(r.FullBytes))
+}
+func rBits(b asn1.BitString) string {
+	if b.Bytes == nil {
+		return "~"
+	}
+	return fmt.Sprintf("%s/%d", hx.Hex(b.Bytes), b.BitLength)
+}
+
 func call(f []string) string {
 	switch f[0] {
+	case "A1S":
+		r, s, err := sm2.SignDataToSignDigit(hx.UnHex(f[2]))
+		if err != nil {
+			return "err"
+		}
+		return "ok " + rInt(r) + " " + rInt(s)
+	case "A1C":
+		out, err := sm2.CipherUnmarshal(hx.UnHex(f[2]))
+		if err != nil {
+			return "err"
+		}
+		return "ok " + hx.Hex(out)
+	case "A1X":
+		var c a1Cert
+		rest, err := asn1.Unmarshal(hx.UnHex(f[2]), &c)
+		if err != nil {
+			return "err"
+		}
+		return fmt.Sprintf("ok (%s,(%s,%s),%s) %s", rRaw(c.TBS), rOID(c.Alg.Algorithm), rRaw(c.Alg.Parameters), rBits(c.Sig), hx.Hex(rest))
+	case "A1T1":
+		var c a1T1
+		rest, err := asn1.Unmarshal(hx.UnHex(f[2]), &c)
+		if err != nil {
+			return "err"
+		}
+		return fmt.Sprintf("ok (%s,%s,%s,%s) %s", rInt(c.A), rBytes(c.B), rRaw(c.C), rOID(c.D), hx.Hex(rest))
+	case "A1T2":
+		var c a1T2
+		rest, err := asn1.Unmarshal(hx.UnHex(f[2]), &c)
+		if err != nil {
+			return "err"
+		}
+		return fmt.Sprintf("ok (%s,%s,%s,%s) %s", rInt(c.V), rBytes(c.K), rOID(c.O), rBits(c.P), hx.Hex(rest))
 	case "BER":
 		out, err := x509.VerifBer2der(hx.UnHex(f[2]))
 		if err != nil {
@@ -689,12 +797,12 @@ func overlapInput(k int) []byte {
 }
 
 type corpus struct {
-	bases                  []base
-	certA, certB, certRSA  []byte // DER
-	extraBER               [][]byte
-	sessionState, reqGM    []byte
-	ckx, skx, skxE         []byte
-	crand, srand           []byte
+	bases                 []base
+	certA, certB, certRSA []byte // DER
+	extraBER              [][]byte
+	sessionState, reqGM   []byte
+	ckx, skx, skxE        []byte
+	crand, srand          []byte
 }
 
 func buildCorpus() *corpus {
@@ -708,8 +816,8 @@ func buildCorpus() *corpus {
 			Subject:      pkix.Name{CommonName: cn, Organization: []string{"verif"}},
 			NotBefore:    time.Unix(1700000000, 0), NotAfter: time.Unix(2000000000, 0),
 			SignatureAlgorithm: x509.SM2WithSM3, SubjectKeyId: []byte{1, 2, 3, 4},
-			KeyUsage: x509.KeyUsageCertSign | x509.KeyUsageDigitalSignature | x509.KeyUsageKeyEncipherment | x509.KeyUsageDataEncipherment,
-			ExtKeyUsage: []x509.ExtKeyUsage{x509.ExtKeyUsageClientAuth, x509.ExtKeyUsageServerAuth},
+			KeyUsage:              x509.KeyUsageCertSign | x509.KeyUsageDigitalSignature | x509.KeyUsageKeyEncipherment | x509.KeyUsageDataEncipherment,
+			ExtKeyUsage:           []x509.ExtKeyUsage{x509.ExtKeyUsageClientAuth, x509.ExtKeyUsageServerAuth},
 			BasicConstraintsValid: true, IsCA: true, DNSNames: []string{"verif.example.com"},
 			EmailAddresses: []string{"v@example.com"},
 		}
@@ -854,6 +962,30 @@ func buildCorpus() *corpus {
 	sig, err := keyA.Sign(rand.Reader, []byte("verif message"), nil)
 	must(err)
 	add(base{dec: "signdigit", data: sig, der: true})
+	// encoding/asn1 model against the real package
+	add(base{dec: "A1S", data: sig, der: true})
+	negSig, _ := asn1.Marshal(struct{ R, S *big.Int }{big.NewInt(-129), new(big.Int).Lsh(big.NewInt(1), 255)})
+	add(base{dec: "A1S", data: negSig, der: true})
+	add(base{dec: "A1C", data: cta, der: true})
+	smallC, _ := asn1.Marshal(sm2Cipher{big.NewInt(1), big.NewInt(0), bytes.Repeat([]byte{7}, 32), []byte{}})
+	add(base{dec: "A1C", data: smallC, der: true})
+	add(base{dec: "A1X", data: c.certA, der: true, cap: 2500})
+	add(base{dec: "A1X", data: c.certRSA, der: true, cap: 1500})
+	miniCert, _ := asn1.Marshal(a1Cert{TBS: asn1.RawValue{FullBytes: []byte{0x30, 0x03, 0x02, 0x01, 0x05}},
+		Alg: a1AlgID{Algorithm: asn1.ObjectIdentifier{1, 2, 156, 10197, 1, 501}}, Sig: asn1.BitString{Bytes: []byte{0xab, 0xc0}, BitLength: 12}})
+	add(base{dec: "A1X", data: miniCert, der: true})
+	t1a, _ := asn1.Marshal(a1T1{A: big.NewInt(300), B: []byte{1, 2, 3}, C: asn1.RawValue{FullBytes: []byte{0x0c, 0x02, 0x68, 0x69}}, D: asn1.ObjectIdentifier{2, 999, 3}})
+	t1b, _ := asn1.Marshal(a1T1{D: asn1.ObjectIdentifier{1, 3, 14, 3, 2, 26}})
+	t1c, _ := asn1.Marshal(a1T1{B: []byte{}, D: asn1.ObjectIdentifier{0, 39, 127, 128, 16383, 16384}})
+	add(base{dec: "A1T1", data: t1a, der: true})
+	add(base{dec: "A1T1", data: t1b, der: true})
+	add(base{dec: "A1T1", data: t1c, der: true})
+	t2a, _ := asn1.Marshal(a1T2{V: big.NewInt(1), K: bytes.Repeat([]byte{9}, 32), O: asn1.ObjectIdentifier{1, 2, 156, 10197, 1, 301},
+		P: asn1.BitString{Bytes: append([]byte{4}, bytes.Repeat([]byte{5}, 64)...), BitLength: 520}})
+	t2b, _ := asn1.Marshal(a1T2{V: big.NewInt(-1), K: []byte{}})
+	add(base{dec: "A1T2", data: t2a, der: true})
+	add(base{dec: "A1T2", data: t2b, der: true})
+	add(base{dec: "A1T2", data: p8s.PrivateKey, der: true})
 	add(base{dec: "verify", data: sig, der: true})
 	// --- SM4 key PEM --------------------------------------------------------------------------------------
 	k4 := sm4.SM4Key([]byte("0123456789abcdef"))
@@ -913,7 +1045,7 @@ func (c *corpus) line(id int, b base, data []byte) string {
 	switch b.dec {
 	case "SDG":
 		return fmt.Sprintf("SDG %d %s %s", id, b.aux[0], h)
-	case "CMA", "DCP", "HPU", "HPR", "SSU", "CRQ", "BER":
+	case "CMA", "DCP", "HPU", "HPR", "SSU", "CRQ", "BER", "A1S", "A1C", "A1X", "A1T1", "A1T2":
 		return fmt.Sprintf("%s %d %s", b.dec, id, h)
 	case "KXC", "KXS", "KXE":
 		return fmt.Sprintf("%s %d %s %s", b.dec, id, h, strings.Join(b.aux, " "))
@@ -977,7 +1109,7 @@ func gen(seed uint64, tier string) []string {
 	c := buildCorpus()
 	defCap, berCap, rnd := 2500, 2500, 40
 	if tier == "thorough" {
-		defCap, berCap, rnd = 1 << 30, 1 << 30, 400
+		defCap, berCap, rnd = 1<<30, 1<<30, 400
 	}
 	var lines []string
 	id := 0
